@@ -3,7 +3,7 @@
 (* Behaviour generation for C38 (and C37 in context): random walks of      *)
 (* ICA.tla, run with  tlc -simulate.  A step is a goal-directed macro      *)
 (* (complete handshake, close by timeout, re-open with the same or with    *)
-(* different ordering / metadata, the race of two channels initialised     *)
+(* different ordering / metadata or with the empty version string, the race of two channels initialised     *)
 (* before either is open, send-and-execute), a successful action of a      *)
 (* randomly drawn class, or any action of the adversarial pool (strangers  *)
 (* signing, wrong-side handshakes, stale and duplicate relays).            *)
@@ -57,7 +57,7 @@ Idle(S0, o)   == S0.A.active[o] = -1 /\ ~\E n \in ChanNos(S0.A.chans) : S0.A.cha
 IsOpen(S0, o) == ActiveA(S0, o).st = "OPEN"
 IsClosed(S0, o) == S0.A.active[o] # -1 /\ ActiveA(S0, o).st = "CLOSED"
 
-MOpen(S0) == { <<Reg(o, o, r, e), Try_(NA(S0)), Ack_(NA(S0), NB(S0)), Conf(NB(S0))>> : o \in {x \in Owners : Idle(S0, x)}, r \in Orders, e \in Encs }
+MOpen(S0) == { <<Reg(o, o, r, e), Try_(NA(S0)), Ack_(NA(S0), NB(S0)), Conf(NB(S0))>> : o \in {x \in Owners : Idle(S0, x)}, r \in Orders, e \in EncIn }
 
 MExec(S0) == { <<Send(o, l, "long"), [a |-> "Recv", ca |-> S0.A.active[o], seq |-> ActiveA(S0, o).ns]>> :
                   o \in {x \in Owners : IsOpen(S0, x) /\ ActiveB(S0, x).st = "OPEN"}, l \in MsgPool }
@@ -71,7 +71,7 @@ MCloseByTimeout(S0) ==
 MReopen(S0) ==
     { (IF ActiveB(S0, o).st = "OPEN" /\ k = 1 THEN <<CloseC(S0.B.active[o])>> ELSE <<>>) \o
       << IF s = o THEN Reg(s, o, r, e) ELSE Ini(s, o, r, e), Try_(NA(S0)), Ack_(NA(S0), NB(S0)), Conf(NB(S0)) >> :
-          o \in {x \in Owners : IsClosed(S0, x)}, r \in Orders, e \in Encs, s \in Signers, k \in {0, 1} }
+          o \in {x \in Owners : IsClosed(S0, x)}, r \in Orders, e \in EncIn, s \in Signers, k \in {0, 1} }
 
 \* two channels for the same owner initialised before either is open; the first one opens, is closed by a timeout,
 \* then the second one is acknowledged and confirmed
@@ -82,7 +82,7 @@ MRace(S0) ==
       (IF k = 1 THEN <<CloseC(NB(S0))>> ELSE <<>>) \o
       << Ack_(NA(S0) + 1, NB(S0) + 1), Conf(NB(S0) + 1), Send(o, <<M("send", "self")>>, "long"),
          [a |-> "Recv", ca |-> NA(S0) + 1, seq |-> 1], CloseC(NB(S0)) >> :
-          o \in {x \in Owners : Idle(S0, x)}, e1 \in Encs, r2 \in Orders, e2 \in Encs, s \in Signers, k \in {0, 1} }
+          o \in {x \in Owners : Idle(S0, x)}, e1 \in Encs, r2 \in Orders, e2 \in EncIn, s \in Signers, k \in {0, 1} }
 
 Macros(S0) == << MOpen(S0), MOpen(S0), MExec(S0), MExec(S0), MCloseByTimeout(S0), MCloseByTimeout(S0), MReopen(S0), MReopen(S0), MReopen(S0), MRace(S0) >>
 
@@ -90,7 +90,7 @@ Next ==
     /\ Len(sched) < Depth
     /\ \E roll \in { RandomElement(1..100) } :
        \E ms \in { IF todo = <<>> /\ roll <= MACRO_PCT THEN Macros(S)[RandomElement(1..Len(Macros(S)))] ELSE {} } :
-       \E P \in { IF todo = <<>> /\ ms = {} THEN Pool(S, RandomElement(MsgPool), RandomElement(Orders), RandomElement(Encs)) ELSE {} } :
+       \E P \in { IF todo = <<>> /\ ms = {} THEN Pool(S, RandomElement(MsgPool), RandomElement(Orders), RandomElement(EncIn)) ELSE {} } :
        \E oks \in { IF todo = <<>> /\ ms = {} /\ roll <= MACRO_PCT + HONEST_PCT THEN OkOf(P, S, Weights[RandomElement(1..Len(Weights))]) ELSE {} } :
        \E adv \in { IF todo = <<>> /\ ms = {} /\ oks = {} THEN AdvOf(P, AdvWeights[RandomElement(1..Len(AdvWeights))]) ELSE {} } :
        \E plan \in { IF todo # <<>> THEN todo
